@@ -275,3 +275,25 @@ Example C07_declared_param_may_be_absent :
   /\ rr_unbound (render cf 100 (b "ns.t") 7 [(b "p", VInt 5)] None None 100) = 1%nat
   /\ rr_unbound (render_x cf 100 (b "ns.t") 7 [(b "p", VInt 5)] None None 100) = 0%nat.
 Proof. vm_compute. repeat split; reflexivity. Qed.
+
+(* the same through data="$m": the map behind $m lacks the callee's REQUIRED param q (the checker cannot know), the callee
+   is entered with data="all" from there and recurses once; two misses on declared params, none on anything else *)
+Definition ex_dataexpr_file : soyfile :=
+  {| sf_name := b "h.soy"; sf_text := [];
+     sf_body := [ NNamespace 0 (b "ns") 0;
+                  NSoyDoc 0 [NSoyDocParam 0 (b "m") false];
+                  NTemplate 0 (b "ns.t") (NList 0 [NCall 0 (b "ns.u") false (Some (ref "m")) []]) 0 false;
+                  NSoyDoc 0 [NSoyDocParam 0 (b "q") false; NSoyDocParam 0 (b "again") true];
+                  NTemplate 0 (b "ns.u")
+                    (NList 0 [NIf 0 [NIfCond 0 (Some (ref "q")) (NList 0 [])];
+                              NIf 0 [NIfCond 0 (Some (ref "again")) (NList 0 [NCall 0 (b "ns.u") true None [NParamValue 0 (b "again") (NBool 0 false)]])]])
+                    0 false ] |}.
+Example C07_data_expr_and_recursion :
+  let reg := match add_files [] [ex_dataexpr_file] with AddOk ts => registry_of ts [ex_dataexpr_file] | AddRej _ => empty_registry end in
+  let cf := {| c_reg := reg; c_ij := None; c_oblig := []; c_msgs := None |} in
+  let d := [(b "m", VMap 9 [(b "again", VBool true)])] in
+  compile_check [ex_dataexpr_file] = Accept /\ registry_shaped reg = true /\ calls_total reg = false
+  /\ rr_outcome (render cf 100 (b "ns.t") 7 d None None 100) = Ok tt
+  /\ rr_unbound (render cf 100 (b "ns.t") 7 d None None 100) = 2%nat
+  /\ rr_unbound (render_x cf 100 (b "ns.t") 7 d None None 100) = 0%nat.
+Proof. vm_compute. repeat split; reflexivity. Qed.
